@@ -126,11 +126,13 @@ def run(ctx):
     r.rule("S1", "text outside raw-text elements is emitted only through escape(), which covers the data-state delimiters", floor=2)
     r.rule("S2", "raw-text element decision agrees with the parser's content-model switches (unconditional, namespaced, plaintext)", floor=8)
     r.rule("S3", "the '</' check dominates raw text emission", floor=1)
+    r.rule("S4", "a tag token of either kind inside a raw-text element is reported", floor=3)
     r.rule("S7", "every component of an attribute key is emitted or reported", floor=1)
     r.rule("S8", "doctype identifiers are checked for the quote they are written in", floor=2)
     r.rule("S9", "the '--' check dominates comment emission", floor=1)
     text_rules(ctx)
     rawtext_rules(ctx)
+    child_in_rawtext_rule(ctx)
     attr_key_rule(ctx)
     doctype_rule(ctx)
     comment_rule(ctx)
@@ -289,6 +291,39 @@ def comment_rule(ctx):
             "a comment can be emitted without being checked for '--'", detail={"dominated": True})
 
 
+def child_in_rawtext_rule(ctx):
+    """S4: a tag written while inside a raw-text element would be read back as text; the "unexpected child" report is
+    reachable for both kinds of tag token (StartTag and EmptyTag) whenever the flag is set."""
+    r = ctx.r
+    f, cfg = serialize_cfg(ctx)
+    errs = [n for n in cfg.stmt_nodes() if any(norm(c.func) == "self.serializeError" and c.args and isinstance(c.args[0], ast.Constant)
+                                               and "child" in str(c.args[0].value).lower() for c in node_calls(n))
+            and type_arm(cfg, n, {"StartTag", "EmptyTag"})]
+    if len(errs) != 1:
+        r.idiom("S4", False, "child-in-rawtext", f.where, "serialize: the unexpected-child report was not found")
+        return
+    err = errs[0]
+    type_tests = [n for n in cfg.nodes if n.kind == "test" and isinstance(n.ast, ast.Compare) and norm(n.ast.left) == "type"]
+    for ty in ("StartTag", "EmptyTag"):
+        blocked = None
+        for t in type_tests:
+            try:
+                val = bool(ctx.ce.eval(t.ast, f.module, {"type": ty}))
+            except Exception:       # noqa: BLE001 -- a test that is not a constant function of the token type
+
+                continue
+            # is err dominated by the edge (t, not val)?  then it cannot run for this token type
+            if cfg.dominated_by(err, lambda n, lab, t=t, val=val: n is t and lab is (not val)):
+                blocked = t
+        r.check("S4", blocked is None, "child-in-rawtext::%s" % ty, "%s:%d" % (REL, err.ast.lineno),
+                "the 'unexpected child element' report cannot run for %s tokens (it is guarded by `%s`): such a tag inside "
+                "<script>/<style>/... is written as markup that is read back as text" % (ty, norm(blocked.ast) if blocked else ""),
+                detail={"type": ty})
+    # and it is not reachable outside the flag
+    r.check("S4", cfg.dominated_by(err, lambda n, lab: n.kind == "test" and norm(n.ast) == "in_cdata" and lab is True),
+            "child-in-rawtext::flag", "%s:%d" % (REL, err.ast.lineno), "the report is not guarded by the raw-text flag")
+
+
 def thorough(ctx):
     from .. import selftest
     selftest.run(ctx, sys.modules[__name__])
@@ -297,6 +332,8 @@ def thorough(ctx):
 def mutants():
     from ..selftest import TextMutant as T
     return [
+        T("child-check-starttag-only", REL, "                elif in_cdata:\n                    self.serializeError(\"Unexpected child element of a CDATA element\")\n                for (_, attr_name), attr_value",
+          "                elif in_cdata and type == \"StartTag\":\n                    self.serializeError(\"Unexpected child element of a CDATA element\")\n                for (_, attr_name), attr_value", "S4"),
         T("no-escape", REL, "                    yield self.encode(escape(token[\"data\"]))", "                    yield self.encode(token[\"data\"])", "S1"),
         T("raw-add-title", "constants.py", "rcdataElements = frozenset([\n    'style',", "rcdataElements = frozenset([\n    'title',\n    'style',", "S2"),
         T("raw-drop-xmp", "constants.py", "    'script',\n    'xmp',\n    'iframe',", "    'script',\n    'iframe',", "S2"),
